@@ -94,9 +94,10 @@ func (r *FecInterceptor) BindLocalStream(
 
 			var fecPackets []rtp.Packet
 			stream.mu.Lock()
+			// the caller may reuse header and payload as soon as Write returns: keep private copies for the batch
 			stream.packetBuffer = append(stream.packetBuffer, rtp.Packet{
-				Header:  *header,
-				Payload: payload,
+				Header:  header.Clone(),
+				Payload: append([]byte(nil), payload...),
 			})
 
 			// Check if we have enough packets to generate FEC
